@@ -5,6 +5,7 @@ import random
 import select
 import socket
 import struct
+import subprocess
 import time
 
 from . import common as C
@@ -300,10 +301,13 @@ def one_run(tftpd, flavor, single, rw, dgrams, sb, rng_seed):
                               "culprit_alone_reproduces": single_repro, "batch_hex": [d[:80].hex() for _, d in batch] if not culprit else None}
             return res
         # long uninterrupted runs from the endpoint of a live transfer
-        count = 12000
         for scenario in FLOODS:
             if scenario == "wrq-then-ack" and ro:
                 continue
+            # every repeated request is accepted and costs the server a thread for 30 s: far fewer of those, so that a
+            # dozen servers flooded at once stay well below what this machine can run (the thread-limit scenario has a
+            # server of its own)
+            count = 300 if scenario == "oack-then-requests" else 12000
             flood(srv, scenario, count, rng)
             res["sent"] += count
             res["labels"]["flood"] = res["labels"].get("flood", 0) + count
@@ -331,6 +335,61 @@ def one_run(tftpd, flavor, single, rw, dgrams, sb, rng_seed):
         srv.stop()
 
 
+def pid_namespaces_work():
+    try:
+        r = subprocess.run(["unshare", "-p", "-f", "--mount-proc", "sh", "-c", "echo 400 > /proc/sys/kernel/pid_max && cat /proc/sys/kernel/pid_max"],
+                           stdout=subprocess.PIPE, stderr=subprocess.DEVNULL, timeout=10, text=True)
+        return r.returncode == 0 and r.stdout.strip() == "400"
+    except (OSError, subprocess.TimeoutExpired):
+        return False
+
+
+def thread_limit_run(tftpd, single, sb):
+    """More simultaneous requests than the server may have threads (PID namespace with pid_max 400): the server must
+    neither exit nor stay unable to serve once the transfers it did accept have given up."""
+    content = N.keyed_content("probe", 700)
+    write(os.path.join(sb["srv"], "probe.bin"), content)
+    cfg = f"release/{'single' if single else 'multi'}/thread-limit"
+    res = {"cfg": cfg, "requests": 0, "outcome": None}
+    for attempt in range(2):
+        srv = N.Server(tftpd, sb["srv"], single=single, logdir=sb["logs"], tag="c05-tl", pid_limit=400)
+        try:
+            srv.start()
+        except RuntimeError:
+            res["outcome"] = "not-started"
+            return res
+        socks = []
+        try:
+            ok, why = N.probe(srv, "probe.bin", content)
+            if not ok:
+                res["outcome"] = "not-started"
+                return res
+            for i in range(1000):
+                s = N._sock(timeout=0.1)
+                socks.append(s)
+                s.sendto(N.enc_req(N.RRQ if i % 3 else N.WRQ, "probe.bin" if i % 3 else f"tl{i}.bin", options=[("timeout", 1)]), srv.addr)
+                res["requests"] += 1
+                if i % 50 == 49:
+                    time.sleep(0.01)
+            time.sleep(1.0)
+            status_after_burst = srv.exit_status()
+            time.sleep(8.0)          # accepted transfers (timeout 1 s) give up after 6 tries
+            ok, why = N.probe(srv, "probe.bin", content, timeout=3.0)
+            log = srv.log_tail(800)
+            refused = srv.log_tail(400000).count("Resource temporarily unavailable")
+            res["refused_for_lack_of_threads"] = refused
+            if ok and srv.exit_status() is None:
+                res["outcome"] = "survived"
+                return res
+            res["failure"] = {"exit_status": srv.exit_status(), "exit_status_after_burst": status_after_burst, "why": why, "log_tail": log}
+        finally:
+            for s in socks:
+                s.close()
+            srv.stop()
+    res["outcome"] = "violation"     # failed on two fresh servers in a row
+    return res
+
+
 def run(tier):
     v = C.Verdict("C05", tier, "exploration")
     flavors = ("release", "checked")
@@ -348,8 +407,19 @@ def run(tier):
                     dgrams = gen_datagrams(rng, n)
                     sb = ctx.sandbox("c05")
                     jobs.append(ex.submit(one_run, ctx.bins[fl]["tftpd"], fl, single, ro, dgrams, sb, C.seed() + k))
+        tl_jobs = []
+        if pid_namespaces_work():
+            for single in (False, True):
+                tl_jobs.append(ex.submit(thread_limit_run, ctx.bins["release"]["tftpd"], single, ctx.sandbox("c05tl")))
         results = [j.result() for j in jobs]
-    total = sum(r["sent"] for r in results)
+        tl_results = [j.result() for j in tl_jobs]
+    for r in tl_results:
+        if r["outcome"] == "violation":
+            f = r["failure"]
+            v.violation(f"C05/thread-limit/{'exit' if f['exit_status'] is not None else 'wedged'}/{r['cfg'].split('/')[1]}",
+                        f"{r['cfg']}: 1000 simultaneous requests against a server that may have about 400 threads: the server {'exited with status ' + str(f['exit_status']) if f['exit_status'] is not None else 'no longer served the probe after the accepted transfers had ended'} ({f['why']}); log: {f['log_tail'][-300:]!r}",
+                        {"engine": "net", "config": r["cfg"], "scenario": "thread-limit", **f})
+    total = sum(r["sent"] for r in results) + sum(r["requests"] for r in tl_results)
     probes = sum(r["probes"] for r in results)
     labels, replies = {}, {}
     for r in results:
@@ -370,9 +440,9 @@ def run(tier):
         else:
             v.note_inconclusive(f"{r['cfg']}: {f['why']}")
     cov = {"evaluations": total, "distinct_nontrivial": len({(r['cfg'], l) for r in results for l in r['labels']}) + probes,
-           "rule": "hostile datagrams (random bytes 0..1500 and up to 65507, opcode prefixes, truncations / NUL removal / byte mutations / splices of valid packets of all six kinds, valid requests with option values at 0,1,7,8,65464,65465,2^16,2^31,2^32,2^36,2^40,2^63,2^64-1,2^64,-1,+5,007,1e3,'',abc in every case spelling, alone and combined) are sent from 8 source sockets to one long-lived server per (build, port mode, read-only) in a seeded order; after every 64 datagrams a liveness probe (canonical RRQ must return the exact 700-byte file, from the listening port in single-port mode) and the process exit status are checked; a failing batch is bisected on fresh servers. Transfers started by hostile requests are cancelled with ERROR. Finally the endpoint of a live transfer sends 12000 well-formed datagrams that are no answer (DATA after the OACK, OACK after DATA 1, ACK 7 after a WRQ, repeated requests, a mix) without a pause, then a probe. distinct_nontrivial = probes answered + distinct (configuration, datagram class) pairs.",
+           "rule": "hostile datagrams (random bytes 0..1500 and up to 65507, opcode prefixes, truncations / NUL removal / byte mutations / splices of valid packets of all six kinds, valid requests with option values at 0,1,7,8,65464,65465,2^16,2^31,2^32,2^36,2^40,2^63,2^64-1,2^64,-1,+5,007,1e3,'',abc in every case spelling, alone and combined) are sent from 8 source sockets to one long-lived server per (build, port mode, read-only) in a seeded order; after every 64 datagrams a liveness probe (canonical RRQ must return the exact 700-byte file, from the listening port in single-port mode) and the process exit status are checked; a failing batch is bisected on fresh servers. Transfers started by hostile requests are cancelled with ERROR. Finally the endpoint of a live transfer sends 12000 well-formed datagrams that are no answer (DATA after the OACK, OACK after DATA 1, ACK 7 after a WRQ, a mix; 300 repeated requests) without a pause, then a probe. Thread limit: a server in a PID namespace with pid_max 400 receives 1000 simultaneous requests; it must stay alive and serve the probe once the accepted transfers have given up. distinct_nontrivial = probes answered + distinct (configuration, datagram class) pairs.",
            "samples": [{"config": r["cfg"], "datagrams": r["sent"], "probes_passed": r["probes"], "classes": r["labels"]} for r in results[:3]],
-           "exhaustive": False, "datagram_classes": labels, "replies_seen": replies, "probes": probes, "servers": len(results), "source_endpoints": sum(r.get("sources", 0) for r in results)}
+           "exhaustive": False, "datagram_classes": labels, "replies_seen": replies, "probes": probes, "servers": len(results), "thread_limit_scenario": [{k: r.get(k) for k in ("cfg", "requests", "outcome", "refused_for_lack_of_threads")} for r in tl_results] or "skipped: PID namespaces with their own pid_max are not available here", "source_endpoints": sum(r.get("sources", 0) for r in results)}
     return v.finish(cov, ["thread/descriptor exhaustion by thousands of simultaneous accepted transfers is outside the property (workers are cancelled)", "server-internal thread schedules are sampled, not controlled"])
 
 
